@@ -376,6 +376,17 @@ async fn scatter_sql_over_table(
                 participants[i].node_id, participants[i].address
             ))
         })?;
+        // The peer reports how many rows it produced out-of-band (`x-qe-rows`).
+        // Hold the payload to it: a response that lost batches on the way must
+        // fail the query, never merge as a smaller answer.
+        let decoded_rows: usize = decoded.iter().map(|b| b.num_rows()).sum();
+        if decoded_rows != rows {
+            return Err(QueryError::Execution(format!(
+                "node {} ({}) returned an incomplete fragment result: it reported {rows} rows \
+                 but {decoded_rows} arrived",
+                participants[i].node_id, participants[i].address
+            )));
+        }
         contributions.push(NodeContribution {
             node_id: participants[i].node_id,
             address: participants[i].address.clone(),
@@ -728,6 +739,13 @@ fn unify(batches: Vec<RecordBatch>) -> Result<Vec<RecordBatch>> {
 /// An empty shard answers with a schema-only stream; that schema must
 /// survive as a zero-row batch, or the merge stage cannot even register the
 /// partial table (Q20-shaped TopN over a selective filter hits this).
+///
+/// The stream must be COMPLETE. Arrow's `StreamReader` follows the IPC spec in
+/// treating "no more bytes where the next message would start" as a normal end
+/// of stream, so a body cut at a message boundary reads as a shorter valid
+/// stream. Every stream this function sees was written by [`encode_ipc`], which
+/// always ends with the end-of-stream marker — so its absence means bytes were
+/// lost, and that is an error rather than a smaller answer.
 pub fn decode_ipc(bytes: &[u8]) -> Result<Vec<RecordBatch>> {
     let reader = arrow::ipc::reader::StreamReader::try_new(std::io::Cursor::new(bytes), None)?;
     let schema = reader.schema();
@@ -735,10 +753,58 @@ pub fn decode_ipc(bytes: &[u8]) -> Result<Vec<RecordBatch>> {
     for b in reader {
         out.push(b?);
     }
+    if !ipc_stream_is_terminated(bytes) {
+        return Err(QueryError::Execution(format!(
+            "truncated Arrow IPC stream: {} bytes decode to {} batches but the end-of-stream \
+             marker is missing",
+            bytes.len(),
+            out.len()
+        )));
+    }
     if out.is_empty() {
         out.push(RecordBatch::new_empty(schema));
     }
     Ok(out)
+}
+
+/// Walk the message framing of an Arrow IPC stream — continuation marker,
+/// metadata length, metadata, body — and report whether it ends with the
+/// end-of-stream marker (`0xFFFFFFFF 0x00000000`) and nothing after it.
+fn ipc_stream_is_terminated(bytes: &[u8]) -> bool {
+    const CONTINUATION: [u8; 4] = [0xff; 4];
+    let mut at = 0usize;
+    loop {
+        let Some(head) = at.checked_add(8).and_then(|end| bytes.get(at..end)) else {
+            return false;
+        };
+        if head[..4] != CONTINUATION {
+            return false;
+        }
+        let meta_len = i32::from_le_bytes([head[4], head[5], head[6], head[7]]);
+        if meta_len == 0 {
+            return at + 8 == bytes.len();
+        }
+        let Ok(meta_len) = usize::try_from(meta_len) else {
+            return false;
+        };
+        let meta_start = at + 8;
+        let Some(meta_end) = meta_start.checked_add(meta_len) else {
+            return false;
+        };
+        let Some(meta) = bytes.get(meta_start..meta_end) else {
+            return false;
+        };
+        let Ok(message) = arrow::ipc::root_as_message(meta) else {
+            return false;
+        };
+        let Ok(body_len) = usize::try_from(message.bodyLength()) else {
+            return false;
+        };
+        at = match meta_end.checked_add(body_len) {
+            Some(next) => next,
+            None => return false,
+        };
+    }
 }
 
 /// Encode batches as an Arrow IPC stream.
